@@ -335,8 +335,15 @@ def deleteChannel (r : Registry) (a : HttpArgs) : Registry × HttpOut :=
       if (findRegistrations r.db .channel tc.topic tc.chan).isEmpty then (r, .err 404 "CHANNEL_NOT_FOUND")
       else ({ r with db := removeRegistrations r.db (findRegistrations r.db .channel tc.topic tc.chan) }, .ok)
 
+/-- decimal digits of `n`, most significant first (`fuel` > number of digits) -/
+def natDigits : Nat → Nat → List UInt8
+  | 0, _ => []
+  | fuel + 1, n => if n < 10 then [(48 + n).toUInt8] else natDigits fuel (n / 10) ++ [(48 + n % 10).toUInt8]
+
+def natDec (n : Nat) : List UInt8 := natDigits (n + 1) n
+
 /-- decimal rendering of a Go `int` by `%d` -/
-def intDec (i : Int) : List UInt8 := ascii (toString i)
+def intDec (i : Int) : List UInt8 := if i < 0 then 45 :: natDec i.natAbs else natDec i.toNat
 
 /-- `fmt.Sprintf("%s:%d", BroadcastAddress, HTTPPort)` -/
 def nodeOf (i : Info) : Name := i.bcast ++ [58] ++ intDec i.http
